@@ -58,6 +58,7 @@ def c15(run):
 @register("C16")
 def c16(run):
     quick = run.tier == "quick"
+    rnd = random.Random(vlib.seed())
     known = sorted({f["model_tag"] for f in vlib.load_known() if f.get("status") == "open" and f.get("model_tag", "").startswith("KF-C16")})
     res = vlib.tlc(run.pid, "table", "SyncerTail", "SyncerTail.cfg", export_key="C16", workers=8, timeout=3000,
                    constants={"Known": "{%s}" % ", ".join('"%s"' % k for k in known)})
@@ -73,8 +74,18 @@ def c16(run):
             c2 = copy.deepcopy(c)
             c2["in"]["tpSmall"] = True
             extra.append(c2)
+    # replay-only variant (same prediction): SyncFromHash instead of SyncFromHeight, where the header of that height exists
+    nhash = 0
+    for c in list(cases):
+        i_ = c["in"]
+        if i_["sfh"] > 0 and i_["sfh"] <= i_["nhead"] and c["allowed"] and rnd.random() < (0.5 if quick else 1.0):
+            c2 = copy.deepcopy(c)
+            c2["in"]["byHash"] = True
+            extra.append(c2)
+            nhash += 1
     cases = cases + extra
-    run.cov["tpSmall_variants"] = len(extra)
+    run.cov["tpSmall_variants"] = len(extra) - nhash
+    run.cov["byHash_variants"] = nhash
     for i, c in enumerate(cases):
         c["id"] = i
     design_bad = collections.Counter((c["predicted"]["kind"]) for c in cases if not c["allowed"])
